@@ -24,7 +24,7 @@ PROP = "C09"
 def run(ctx):
     repo = ctx.repo
     res = Result(PROP)
-    res.rules = ["K1", "K2", "K5", "K-CANON", "K-ZIP", "K-FACEID", "K-PAIR", "M-MAP", "K3(info)"]
+    res.rules = ["K1", "K2", "K5", "K-CANON", "K-ZIP", "K-FACEID", "K-PAIR", "K-ORD", "M-MAP", "K3(info)"]
     res.explanation = (
         "Abstract interpretation of every function of the structural-measure modules over ID / position kinds and the "
         "container shapes built from them (sa/kinds.py): each subscript is checked for a label used as a position or a "
@@ -59,6 +59,10 @@ def run(ctx):
                      "def f(H, k):\n    members = H.edges.members(dtype=dict)\n    return [[k[a], k[b]] for e in H.edges for a, b in combinations(members[e], 2)]\n",
                      lambda nd: f"`{unparse(nd, 60)}` records the two elements of a pair drawn with combinations() from a member set in different positions; which of the two comes first is the hash order of the labels, so the recorded orientation (and every statistic of the two columns taken separately) changes under relabelling - enumerate both orientations (permutations) or combine the two symmetrically",
                      "oriented pairs drawn from unordered member sets")
+        from .common import ORDER_POSITIVE, describe_order_mismatch, order_mismatch_nodes
+
+        pattern_lint(res, PROP, "K-ORD", fns, order_mismatch_nodes, ORDER_POSITIVE, describe_order_mismatch,
+                     "position maps numbering one sequence applied to a sequence listing another")
     return res
 
 
